@@ -31,7 +31,14 @@ failed=$(grep -E "^test result" /tmp/mut/$name.suite.log | awk '{s+=$6} END {pri
 failing_names=$(grep -E "^test .* FAILED$" /tmp/mut/$name.suite.log | sort | tr '\n' ';')
 git checkout -q -- .
 echo "demo on clean tree rc=$clean_rc (want 0); demo with patch rc=$patched_rc (want !=0); suite with patch: passed=$passed failed=$failed [$failing_names]"
-# 3. our checks against it
+# 3. our checks against it (CHECKS=none: only the worktree confirmation)
+if [ "${CHECKS:-}" = "none" ]; then
+  mkdir -p /verif/seeded/$name; cp "$out/patch.diff" /verif/seeded/$name/patch.diff
+  [ -f "$out/demo.rs" ] && cp "$out/demo.rs" /verif/seeded/$name/demo.rs
+  [ -f "$out/notes.md" ] && cp "$out/notes.md" /verif/seeded/$name/notes.md
+  echo "$clean_rc $patched_rc $passed $failed" > /verif/seeded/$name/.confirm
+  exit 0
+fi
 cd /repo || exit 2
 if ! git diff --quiet; then echo "/repo dirty, refusing"; exit 2; fi
 git apply "$out/patch.diff" || { echo "patch does not apply to /repo"; exit 3; }
